@@ -89,6 +89,13 @@ fn wlog(b: u8) -> io::Result<()> {
 		Ok(())
 	}
 }
+
+// Executable statement of core::fmt::write's contract for literal-only arguments (the only kind the framing code
+// uses): the text is written to the sink.  Keeps the harnesses decidable when a writer does NOT override write_fmt
+// (std's default goes through the formatting machinery, which CBMC cannot afford).
+fn fmt_write_literal(output: &mut dyn std::fmt::Write, args: std::fmt::Arguments<'_>) -> std::fmt::Result {
+	match args.as_str() { Some(s) => output.write_str(s), None => { assert!(false, "framing text is not a literal"); Ok(()) } }
+}
 struct LogW;
 impl Write for LogW {
 	fn write(&mut self, buf: &[u8]) -> io::Result<usize> { let mut i = 0; while i < buf.len() { wlog(buf[i])?; i += 1; } Ok(buf.len()) }
@@ -112,6 +119,7 @@ fn yaml_framing_value(fail_at: usize) {
 	let r = crate::Output::transcode_value(&mut out, 7u8);
 	let ok = r.is_ok();
 	std::mem::forget(r);
+	std::mem::forget(out);
 	unsafe {
 		if fail_at >= 5 {
 			assert!(ok && WPOS == 5);
@@ -126,10 +134,12 @@ fn yaml_framing_value(fail_at: usize) {
 #[kani::proof]
 #[kani::unwind(6)]
 #[kani::stub(serde_yaml::to_writer, yaml_to_writer_stub)]
+#[kani::stub(core::fmt::write, fmt_write_literal)]
 fn yaml_output_value_framing_ok() { yaml_framing_value(99); }
 #[kani::proof]
 #[kani::unwind(6)]
 #[kani::stub(serde_yaml::to_writer, yaml_to_writer_stub)]
+#[kani::stub(core::fmt::write, fmt_write_literal)]
 fn yaml_output_value_framing_separator_write_fails() { yaml_framing_value(2); }
 
 /// The same obligation as yaml_slice_fast_path_requires_utf8, modular: Encoding::detect is replaced by its
